@@ -68,6 +68,7 @@ type c06Case struct {
 	CanaryAge      *time.Duration
 	AnnPaused      string
 	AnnUnpaused    string
+	AnnFrozen      bool // rollout-frozen=true on the ExtendedDaemonSet: no business of the canary verdict
 	Missing        int
 }
 
@@ -109,6 +110,7 @@ func c06Gen(r *rand.Rand) c06Case {
 	}
 	c.AnnPaused = []string{"", "true", "false"}[r.Intn(3)]
 	c.AnnUnpaused = []string{"", "", "true", "false"}[r.Intn(4)]
+	c.AnnFrozen = r.Intn(6) == 0
 	n := r.Intn(4)
 	for i := 0; i < n; i++ {
 		p := c06Pod{UpToDate: r.Intn(8) != 0, Terminating: r.Intn(10) == 0, InitC: r.Intn(6) == 0}
@@ -234,6 +236,10 @@ func c06Build(c c06Case, now time.Time) (map[string]string, *strategy.Parameters
 	}
 	if c.AnnUnpaused != "" {
 		ann[v1.ExtendedDaemonSetCanaryUnpausedAnnotationKey] = c.AnnUnpaused
+	}
+	if c.AnnFrozen {
+		ann[v1.ExtendedDaemonSetRolloutFrozenAnnotationKey] = "true"
+		ann[v1.ExtendedDaemonSetRollingUpdatePausedAnnotationKey] = "true"
 	}
 	return ann, params
 }
